@@ -51,6 +51,27 @@ def _materialise(v):
     return v
 
 
+def _seed_pool(obj):
+    import specs
+
+    def walk(x):
+        if isinstance(x, str) and x not in specs._POOL["str"]:
+            specs._POOL["str"].append(x)
+        elif isinstance(x, bool):
+            pass
+        elif isinstance(x, int) and x not in specs._POOL["int"]:
+            specs._POOL["int"].append(x)
+        elif isinstance(x, dict):
+            for k, v in x.items():
+                walk(k)
+                walk(v)
+        elif isinstance(x, (list, tuple)):
+            for v in x:
+                walk(v)
+
+    walk(obj)
+
+
 def run(key, args, kind, clause, raises, ensures, RAISED=None, CUSTOM=None):
     if CUSTOM:
         mod = importlib.import_module(CUSTOM)
@@ -66,6 +87,7 @@ def run(key, args, kind, clause, raises, ensures, RAISED=None, CUSTOM=None):
         else:
             call[k] = _materialise(v)
     pre = copy.deepcopy(call)
+    _seed_pool(call)
     print("call   :", key, call, kwargs)
     result, raised = None, None
     try:
@@ -77,6 +99,8 @@ def run(key, args, kind, clause, raises, ensures, RAISED=None, CUSTOM=None):
     print("result :", repr(result), "raised:", repr(raised))
     env = dict(call)
     env["result"] = result
+    _seed_pool(result)
+    _seed_pool(call)
     violated = False
     if raised is not None:
         allowed = None
